@@ -3,6 +3,7 @@ import os
 import time
 
 from vlib.model import variants as V
+from vlib import lib
 from vlib.runner import ShardResult
 
 from checks import c13_world as W
@@ -74,6 +75,7 @@ WORLD = {
         ("agg", dict(N=3, nv=[1, 2], k=1)),
         ("vcf", dict(nrec=2)),
         ("liftscale", dict(ks=(5, 9, 20), npat=2)),
+        ("overlap", dict(N=6)),
     ],
     "thorough": [
         ("selftest", {}),
@@ -92,6 +94,7 @@ WORLD = {
         ("agg", dict(N=4, nv=[1, 2], k=1)),
         ("vcf", dict(nrec=3)),
         ("liftscale", dict(ks=(4, 5, 6, 9, 12, 20, 33), npat=3)),
+        ("overlap", dict(N=8)),
     ],
 }
 
@@ -152,6 +155,46 @@ def run_lift(res, p, i, n):
     res.sample({"leg": "lift", "N": N, "edits": [[0, 1, ""], [1, 2, ""]], "blocks": [[0, 2]], "strand": "+", "form": "bare"})
 
 
+def run_lift_overlap(res, p, i, n):
+    """locations whose two blocks OVERLAP (the library's way of writing a -1 frameshift: the shared bases are read twice):
+    every single variant that lies, for EACH block, wholly inside it or wholly outside it; oracle = the reference spliced
+    sequence with the edit applied per block (vlib.model.variants.edited_splice), compared with the sequence the lifted
+    location extracts from the alternative haplotype, through the collection and the single-variant API"""
+    from vlib import worlds
+
+    N = p["N"]
+    locs = [(bl, st) for bl in worlds.layouts(N, 2, "overlap") if len(bl) == 2 and all(e > s_ for s_, e in bl) and bl[0][0] != bl[1][0] for st in "+-"]
+    for idx, edits in enumerate(W.edit_sets(N, 1)):
+        if idx % n != i:
+            continue
+        hap = C.Hap(N, 0, edits, None)
+        (s_, e_, alt) = edits[0]
+        for bl, st in locs:
+            if any(not ((bs <= s_ and e_ <= be) or e_ <= bs or s_ >= be) for bs, be in bl):
+                continue  # the variant straddles a block boundary: outside the statement's side condition
+            exp_seq = V.edited_splice(hap.ref, bl, st, edits)
+            for api in ("collection", "single"):
+                loc = C.input_location(bl, st, None, "chrom", hap.parent)
+                target = hap.single if api == "single" else hap.coll
+                o = lib.outcome(lambda: C.read_location(target.lift_over_location(loc), True)[0])
+                res.trans()
+                res.nontriv(("overlap", edits, bl, st, api))
+                case = dict(leg="overlap", N=N, rot=0, edits=[list(e) for e in edits], blocks=[list(b) for b in bl], strand=st, api=api)
+                res.note("lift-overlap", "inside" if any(bs <= s_ and e_ <= be for bs, be in bl) else "outside")
+                if o[0] != "ok":
+                    if exp_seq == "" and lib.is_documented_exc(o[2]):
+                        continue
+                    res.deviation("lift_over_location", case, o[1], exp_seq, sig="overlap-lift-raises")
+                elif o[1]["seq"].upper() != exp_seq.upper():
+                    ob = o[1].get("overlapping_blocks") or []
+                    if len({b_[0] for b_ in ob}) < len(ob) and sorted(o[1]["seq"].upper()) == sorted(exp_seq.upper()):
+                        # the deletion made the two lifted blocks START at the same base: their order on the minus strand is
+                        # the tie-break of known finding C03-same-start-revstrand (right bases, other order) - C03's subject
+                        res.note("lift-overlap", "same-start-after-lift")
+                        continue
+                    res.deviation("lift_over_location", case, o[1], exp_seq, sig="overlap-lift-sequence")
+
+
 def run_lift_scale(res, p, i, n, tier):
     """the scale family (vlib/worlds.py): many-block locations; every single variant whose reference interval (1-2 bp) starts at
     a ladder position (first / second / a middle / the last block: block start, last base of the block, first base of the gap
@@ -202,6 +245,8 @@ def run_shard(shard):
         VCF.run_vcf(res, p, i, n)
     elif leg == "liftscale":
         run_lift_scale(res, p, i, n, shard["tier"])
+    elif leg == "overlap":
+        run_lift_overlap(res, p, i, n)
     else:
         raise ValueError(leg)
     if os.environ.get("VERIF_DEBUG"):  # debugging aid only: CPU seconds per leg (never part of normal evidence)
@@ -214,6 +259,9 @@ def replay(case):
     leg = case["leg"]
     edits = tuple((s, e, a) for s, e, a in case.get("edits", []))
     window = tuple(case["window"]) if case.get("window") else None
+    if leg == "overlap":
+        run_lift_overlap(res, dict(N=case["N"]), 0, 1)
+        return [d for d in res.deviations if d["case"] == case] or res.deviations
     if leg == "alt":
         C.alt_case(res, case["N"], case["rot"], edits, window, case["order"])
     elif leg == "lift":
